@@ -249,8 +249,38 @@ def is_big(line):
                for tok in line.split(" ")[2:6] if tok != "-" for it in tok.split(",") for t in [it[2:]] if ":" in it[:2])
 
 
+def build_driver():
+    """The test binary of proxy/lib with ONLY this tie's in-package driver (and the wire helper package) injected, through an
+    overlay map of its own: another area's in-package file that stops compiling after a refactor of proxy/lib cannot take
+    the relay tie down with it."""
+    import json
+    vlib.go_prepare()
+    rels = [os.path.join("proxy", "lib", "zz_verif_copyloop_test.go"), os.path.join("zz_verif", "wire", "wire.go")]
+    ov = os.path.join(vlib.GOB, "overlay_c01_copyloop.json")
+    data = json.dumps({"Replace": {os.path.join(vlib.REPO, r): os.path.join(vlib.OVERLAY_SRC, r) for r in rels}}, indent=1)
+    if not os.path.exists(ov) or open(ov).read() != data:
+        open(ov, "w").write(data)
+    out = os.path.join(vlib.GOB, "bin", "proxylib_copyloop.test")
+    os.makedirs(os.path.dirname(out), exist_ok=True)
+    rc, o, e = vlib.sh(["go", "test", "-c", "-vet=off", "-tags", "verif", "-modfile=" + os.path.join(vlib.GOB, "go.mod"), "-overlay", ov,
+                        "-ldflags=-checklinkname=0", "-o", out, "./proxy/lib"], cwd=vlib.REPO, env=vlib.GOENV, timeout=900)
+    if rc != 0:
+        raise vlib.GoBuildError("go test -c ./proxy/lib (copyLoop relay driver) failed:\n%s" % (o + e)[-3000:])
+    return out
+
+
 def run_copyloop(ctx):
-    exe = vlib.go_test_build("./proxy/lib", name="proxylib_copyloop.test")
+    try:
+        exe = build_driver()
+    except vlib.GoBuildError as e:
+        # copyLoop is unexported: this tie needs an in-package driver. If it no longer compiles (copyLoop renamed, its
+        # signature changed) the whole-system rig still moves bytes through the real relay: say so and go on.
+        note = ("relay tie unavailable: harness/overlay/proxy/lib/zz_verif_copyloop_test.go no longer compiles against this tree "
+                "(copyLoop renamed or its signature changed?); the whole-system rig still ran. " + str(e)[-600:].replace("\n", " | "))
+        vlib.log("C01 note: " + note[:400])
+        ctx.extra.setdefault("notes", []).append(note)
+        ctx.assumptions.append(note[:300])
+        return
     ctx.trusted += ["the gated scripted conns of harness/overlay/proxy/lib/zz_verif_copyloop_test.go (a closed conn fails Read and Write and wakes "
                     "the calls parked on it, as io.Pipe and net.Conn do); io.Copy is the real one (Go 1.23.5)"]
     ctx.assumptions += ["relay step: model = coq/Model/CopyLoop.v, one schedulable event per Read / Write / Close call of copyLoop's three "
@@ -279,7 +309,7 @@ def replay_copyloop(ctx, doc):
     cases = [c for c in cases if c]
     if not cases:
         return 0
-    exe = vlib.go_test_build("./proxy/lib", name="proxylib_copyloop.test")
+    exe = build_driver()
     bad = 0
     for case in cases:
         m = vlib.run_model([case])[0]
